@@ -7,7 +7,7 @@
    below: what the expansion is, that nothing is lost or renamed on the way there and back. *)
 From Coq Require Import List String Ascii Bool Arith ZArith.
 Import ListNotations.
-From FP Require Import NodeExp NodeExpProofs.
+From FP Require Import NodeExp NodeExpProofs NodeExpLen.
 Local Open Scope string_scope.
 Local Open Scope list_scope.
 
@@ -235,3 +235,33 @@ Theorem C11_edges_view_complete : forall G flow len x,
   In x (ne_edges_view (fst (ne_expand_core G flow len))) <-> In x (ne_xe (fst (ne_expand_core G flow len))).
 Proof. exact expand_edges_view. Qed.
 Print Assumptions C11_edges_view_complete.
+
+(* ---- lengths (node_length_attr = l): node lengths sit on the node edges, connecting edges have length 0
+   (never a missing attribute that would later default to 1), so an expanded route is as long as the sum of the
+   node lengths of the route it condenses to.  Preconditions: the flow and length attribute names differ and
+   no ORIGINAL edge carries the length attribute (an edge that does keeps its own value). *)
+Theorem C11_expand_lengths : forall G flow l,
+  ne_wf G -> flow <> l -> ne_nolen l G ->
+  let X := fst (ne_expand_core G flow (Some l)) in
+  (forall v, ne_inode G v -> ne_elen X l (ne_exp0 v, ne_exp1 v) = ne_nlen G l v) /\
+  (forall u v, ne_iedge G u v -> ne_elen X l (ne_exp1 u, ne_exp0 v) = 0%Z).
+Proof. exact expand_lengths. Qed.
+Print Assumptions C11_expand_lengths.
+
+Theorem C11_expanded_route_length : forall G flow l p,
+  ne_wf G -> flow <> l -> ne_nolen l G ->
+  (forall v, In v p -> ne_inode G v) -> ne_walk (ne_iedge G) p ->
+  ne_zsum (map (ne_elen (fst (ne_expand_core G flow (Some l))) l) (ne_pairs (ne_expand_path p))) = ne_zsum (map (ne_nlen G l) p).
+Proof. exact expanded_route_length. Qed.
+Print Assumptions C11_expanded_route_length.
+
+Example C11_nonvacuous_lengths :
+  ne_nolen "len" ex_G /\
+  ne_zsum (map (ne_elen (fst (ne_expand_core ex_G "flow" (Some "len"))) "len") (ne_pairs (ne_expand_path ["a"; "b"]))) = 3%Z /\
+  ne_zsum (map (ne_nlen ex_G "len") ["a"; "b"]) = 3%Z /\
+  (* without node_length_attr the connecting edge has no length and would count 1: 1 + 1 + 2 *)
+  ne_zsum (map (ne_elen (fst (ne_expand_core ex_G "flow" None)) "len") (ne_pairs (ne_expand_path ["a"; "b"]))) = 4%Z.
+Proof.
+  split; [|vm_compute; repeat split].
+  intros nd Hnd. cbn in Hnd. destruct Hnd as [<-|[<-|[<-|[]]]]; split; cbn; intros x Hx; try tauto; destruct Hx as [<-|[]]; reflexivity.
+Qed.
